@@ -14,7 +14,9 @@ F4 == <<"p", "f4.graphql">>
 F5 == <<"p", "q", "f2.graphql">>   \* same file NAME as F2, beside F3: "./f2.graphql" means F2 in p/ and F5 in p/q/; it also has a fragment called A
 FileIds == {F1, F2, F3, F4, F5}
 Frags(f) == CASE f = F1 -> <<"R">> [] f = F2 -> <<"A", "B">> [] f = F3 -> <<"C", "D">> [] f = F4 -> <<"E">> [] f = F5 -> <<"A", "K">>
-Ops(f)   == IF f = F1 THEN <<"Q">> ELSE <<>>
+(* operations and fragments are separate name spaces: F2 also has an OPERATION called like its fragment A (placed before it) and one    *)
+(* called Z - the name that import lines request although no fragment Z exists; F5 has an operation called like its fragment K        *)
+Ops(f)   == CASE f = F1 -> <<"Q">> [] f = F2 -> <<"A", "Z">> [] f = F5 -> <<"K">> [] OTHER -> <<>>
 
 (* relative spellings of `to` as seen from the directory of `from` *)
 DirOf(f) == Front(f)
